@@ -254,7 +254,7 @@ def main(tier):
     rep.extra['programs_skipped_solver_undecided'] = skipped
     if skipped * 10 > nprog:
         results[0]['inconclusive'].append({'kind': 'bound', 'detail': '%d of %d programs undecided by the solver' % (skipped, nprog)})
-    rep.validated, rep.validation_mismatches = c01.validate(prog, ovs, rng, 200 if tier == 'quick' else 2000)
+    rep.validated, rep.validation_mismatches = c01.validate(prog, ovs, rng, 200 if tier == 'quick' else 2000, rep, PROP)
     for r in results:
         for v in r['violations']:
             ok, out = confirm(v)
